@@ -42,6 +42,9 @@ type Scenario struct {
 	Seed      int64 `json:"seed"`
 }
 
+// StragglerRuns counts the runs in which the driver had to wait for a goroutine the scheduler had lost track of.
+var StragglerRuns int
+
 type envAction struct {
 	kind string
 	p, k int
@@ -105,6 +108,8 @@ func (r *run) cnum(p int, c cid.Cid) int {
 	}
 	return -1
 }
+
+var syncFrames = []string{"dagsync.(*handler).asyncSyncAdChain", "dagsync.(*handler).handle", "dagsync.(*Subscriber).SyncAdChain", "dagsync.(*Subscriber).watch.func"}
 
 // Execute runs one scenario and returns the trace plus a divergence (hang etc.) if the run itself failed.
 func Execute(sc Scenario, pubs []*chain.Pub) (log []gate.Event, key, detail string) {
@@ -247,10 +252,28 @@ func Execute(sc Scenario, pubs []*chain.Pub) (log []gate.Event, key, detail stri
 		return todo
 	}
 	ctx := context.Background()
+	stragglerWaits := 0
+	lastProgress := time.Now()
 	for step := 0; step < 4000+80*sc.Ads*sc.Pubs; step++ {
 		parked := s.ParkedIDs()
 		env := available()
+		if len(parked) != 0 || len(env) != 0 {
+			lastProgress = time.Now()
+		}
 		if len(parked) == 0 && len(env) == 0 {
+			// really over?  a sync goroutine that is neither parked nor blocked is still on its way to a hook
+			// (or waits for a lock that a goroutine the scheduler does not track holds for a moment)
+			moving, blocked, stacks := s.Unfinished(syncFrames)
+			if moving+blocked > 0 && time.Since(lastProgress) < 2*time.Second {
+				stragglerWaits++
+				time.Sleep(100 * time.Microsecond)
+				s.Settle()
+				step--
+				continue
+			}
+			if blocked > 0 && !r.closed {
+				key, detail = "hang", "nothing is parked and nothing is left to do, but a sync is still waiting in a primitive of the library:\n" + stacks
+			}
 			break
 		}
 		// favour releases 3:1 so that syncs make progress between announcements
@@ -363,6 +386,9 @@ func Execute(sc Scenario, pubs []*chain.Pub) (log []gate.Event, key, detail stri
 	}
 	if key == "" && len(s.ParkedIDs()) != 0 {
 		key, detail = "infra", "step budget exhausted with goroutines still parked"
+	}
+	if stragglerWaits > 0 {
+		StragglerRuns++
 	}
 	// final observations
 	if key == "" {
@@ -608,6 +634,9 @@ func Run(args []string) *rep.Report {
 		}
 	}
 	r.SetExtra("trace_events", events)
+	if StragglerRuns > 0 {
+		r.SetExtra("runs_with_straggling_goroutines", StragglerRuns)
+	}
 	return r
 }
 
